@@ -276,16 +276,19 @@ class DataFrame:
         """
         Select rows from the DataFRame. The DataFrame is filtered based on boolean array.
         """
-        return DataFrame(schema=self._schema, rows=(t for t, m in zip(self._rows, mask) if m))
+        # select from the rows held now: a generator over the list itself would also yield the
+        # rows appended to this frame before the new frame is first read
+        rows = self._rows[:] if isinstance(self._rows, list) else self._rows
+        return DataFrame(schema=self._schema, rows=(t for t, m in zip(rows, mask) if m))
 
     def take(self, indexes) -> "DataFrame":
         """
         Select rows from the DataFrame. Rows are selected based on their appearance in the indexes
         list
         """
-        return DataFrame(
-            schema=self._schema, rows=(m for i, m in enumerate(self._rows) if i in indexes)
-        )
+        # as in filter: the rows held now, not the list that later appends extend
+        rows = self._rows[:] if isinstance(self._rows, list) else self._rows
+        return DataFrame(schema=self._schema, rows=(m for i, m in enumerate(rows) if i in indexes))
 
     def row(self, i) -> Row:
         self.materialize()
